@@ -30,6 +30,7 @@ package main
 import (
 	"bufio"
 	"bytes"
+	"compress/gzip"
 	"context"
 	"errors"
 	"fmt"
@@ -123,6 +124,7 @@ type exchange struct {
 	cbURLs                                 []string
 	rewrite                                bool // the handler behind the state listener replaces req.URL (a re-routing handler)
 	connHdr                                string
+	gz                                     bool // the client asks for gzip and the backend answers with a gzip-encoded body
 	rtCalled                               bool
 	rtErr                                  error
 	proxyStatus                            int
@@ -221,7 +223,7 @@ func getEnv() *env {
 		mk := func(timeout time.Duration) http.Handler {
 			fwd := forward.New(true)
 			fwd.ErrorLog = log.New(io.Discard, "", 0)
-			fwd.Transport = &recTransport{e: e, rt: &http.Transport{ResponseHeaderTimeout: timeout, DisableCompression: true, DisableKeepAlives: true}}
+			fwd.Transport = &recTransport{e: e, rt: &http.Transport{ResponseHeaderTimeout: timeout, DisableKeepAlives: true}}
 			// between the listener and the forwarder: a handler that may re-route by replacing req.URL in place
 			reroute := http.HandlerFunc(func(w http.ResponseWriter, r *http.Request) {
 				if x := e.current(); x != nil && x.rewrite {
@@ -358,6 +360,9 @@ func (e *env) serveRaw(c net.Conn) {
 	var head strings.Builder
 	fmt.Fprintf(&head, "HTTP/1.1 %d %s\r\n", x.status, http.StatusText(x.status))
 	head.WriteString("Content-Type: text/x-test\r\nX-E2e: v\r\nX-Multi: a\r\nX-Multi: b\r\n")
+	if x.gz {
+		head.WriteString("Content-Encoding: gzip\r\n")
+	}
 	write := func(b []byte) {
 		_, _ = c.Write(b)
 	}
@@ -518,6 +523,14 @@ func (c *comp) Run(h *hlib.History) ([]hlib.Mon, bool) {
 				return nil, false
 			}
 			x.body = bodyOf(x.bodyLen, step)
+			if x.gz = step%3 == 0 && x.bodyLen > 0; x.gz {
+				var zb bytes.Buffer
+				zw := gzip.NewWriter(&zb)
+				_, _ = zw.Write(x.body)
+				_ = zw.Close()
+				x.body = zb.Bytes()
+				x.bodyLen = len(x.body)
+			}
 			x.rewrite = step%2 == 1
 			x.connHdr = connHeaders[step%len(connHeaders)]
 			if x.mode == 1 {
@@ -581,6 +594,9 @@ func (c *comp) Run(h *hlib.History) ([]hlib.Mon, bool) {
 				}
 				if clientHdr.Get("X-E2e") != "v" || clientHdr.Get("Content-Type") != "text/x-test" || strings.Join(clientHdr["X-Multi"], ",") != "a,b" {
 					hit("end-to-end response headers changed: %v", clientHdr)
+				}
+				if x.gz && clientHdr.Get("Content-Encoding") != "gzip" {
+					hit("the backend's gzip-encoded response reached the client with Content-Encoding %q (body %d bytes, backend sent %d)", clientHdr.Get("Content-Encoding"), len(clientBody), len(x.body))
 				}
 			case 1, 2, 3:
 				if clientStatus != 502 {
@@ -740,7 +756,11 @@ func (e *env) client(x *exchange) (status int, body []byte, hdr http.Header, err
 	}
 	defer conn.Close()
 	_ = conn.SetDeadline(time.Now().Add(8 * time.Second))
-	if _, err = io.WriteString(conn, "GET /x HTTP/1.1\r\nHost: example.com\r\n"+x.connHdr+"\r\n"); err != nil {
+	ae := ""
+	if x.gz {
+		ae = "Accept-Encoding: gzip\r\n"
+	}
+	if _, err = io.WriteString(conn, "GET /x HTTP/1.1\r\nHost: example.com\r\n"+ae+x.connHdr+"\r\n"); err != nil {
 		return 0, nil, nil, err
 	}
 	if x.mode == 5 {
